@@ -298,3 +298,71 @@ func TestVerifC11B64(t *testing.T) {
 	}
 	shim.call("close", verifSessionBody(id), nil, 5*time.Second)
 }
+
+// TestVerifC11Tail: the backend sends k messages and then ends the connection (close handshake or dropped
+// socket) BEFORE the client polls.  The messages sent before the end are part of the stream and must all be
+// polled, in order, before the session reports its end.
+func TestVerifC11Tail(t *testing.T) {
+	out := verifOpenOut(t)
+	defer out.close()
+	rng := &verifRng{s: verifSeed()}
+	be := newVerifWSBackend()
+	defer be.srv.Close()
+	shim := newVerifShim(be.host(), false)
+	for _, k := range []int{1, 2, 3, 9, 10, 11, 14} {
+		for _, how := range []string{"close-handshake", "drop"} {
+			for _, wait := range []int{150, 0} {
+				r, id := shim.open("ws://ignored/ws", "1")
+				if r.Status != 200 {
+					out.emit(map[string]interface{}{"kind": "tail", "error": "open failed", "status": r.Status})
+					continue
+				}
+				bc := <-be.newC
+				var ssent []verifWSMsg
+				for j := 0; j < k; j++ {
+					m := verifGenMsg(rng, 5000+j)
+					ssent = append(ssent, m)
+				}
+				ended := make(chan struct{})
+				go func() {
+					defer close(ended)
+					for _, m := range ssent {
+						bc.c.WriteMessage(m.Type, m.Data)
+					}
+					if how == "close-handshake" {
+						bc.c.WriteControl(websocket.CloseMessage, websocket.FormatCloseMessage(websocket.CloseNormalClosure, "bye"), time.Now().Add(time.Second))
+						time.Sleep(20 * time.Millisecond)
+					}
+					bc.c.UnderlyingConn().Close()
+				}()
+				if wait > 0 {
+					select {
+					case <-ended:
+					case <-time.After(2 * time.Second):
+					}
+					time.Sleep(time.Duration(wait) * time.Millisecond)
+				}
+				var polled []verifWSMsg
+				var statuses []int
+				for p := 0; p < 40 && len(polled) < len(ssent); p++ {
+					pr := shim.call("poll", verifSessionBody(id), nil, 25*time.Second)
+					statuses = append(statuses, pr.Status)
+					if pr.Status != 200 {
+						break
+					}
+					ms, err := verifDecodePoll(pr.Body, 1)
+					if err != nil {
+						break
+					}
+					polled = append(polled, ms...)
+				}
+				eq := len(polled) == len(ssent)
+				for i := 0; eq && i < len(polled); i++ {
+					eq = polled[i].Type == ssent[i].Type && bytes.Equal(polled[i].Data, ssent[i].Data)
+				}
+				shim.call("close", verifSessionBody(id), nil, 5*time.Second)
+				out.emit(map[string]interface{}{"kind": "tail", "messages": k, "end": how, "wait_before_first_poll_ms": wait, "s2c_sent": verifMsgSummary(ssent), "s2c_polled": verifMsgSummary(polled), "s2c_equal": eq, "poll_statuses": statuses})
+			}
+		}
+	}
+}
